@@ -155,6 +155,11 @@ def stage_lake(ctx, targets):
     rc, out = sh(["lake", "build"] + targets + ["driver"], cwd=LEAN, timeout=3600)
     with open(os.path.join(ctx.work, "lake.log"), "w") as f:
         f.write(out)
+    if rc != 0:
+        # a proof obligation broke: the model driver must still be current for the correspondence / search
+        rc2, out2 = sh(["lake", "build", "driver"], cwd=LEAN, timeout=3600)
+        with open(os.path.join(ctx.work, "lake-driver.log"), "w") as f:
+            f.write(out2)
     return rc, out
 
 
